@@ -658,6 +658,47 @@ def compare_rows(rep, sig, what, out_a, out_b, names, runs, **extra):
     return False
 
 
+class Probe:
+    """Collects violations without reporting them (first pass of `confirm`)."""
+
+    def __init__(self):
+        self.v = []
+
+    def violation(self, sig, what, replay):
+        self.v.append(sig)
+        return True
+
+
+def confirm(ctx, rep, runs, res, evaluate, cwd_files=None):
+    """Report what `evaluate(results, sink)` finds only if it reproduces when the same runs are
+    repeated one at a time. A defect is a function of the input and reproduces; interference
+    from the machine does not. (The real binary scans the process table for a calling
+    `git`/`rg`; other checks running in parallel spawn such processes, and the pin
+    DELTA_VERIF_FORCE_GUESS is not in the tree yet — see notes/C15.md.)"""
+    probe = Probe()
+    evaluate(res, probe)
+    if not probe.v:
+        return
+    tmp = []
+    try:
+        res2 = []
+        for k, r in enumerate(runs):
+            cwd = r[2]
+            if cwd_files is not None:
+                cwd = with_files(cwd_files[k])
+                tmp.append(cwd)
+            res2.append(run_case(ctx, r[0], r[1], cwd))
+    finally:
+        for d in tmp:
+            shutil.rmtree(d, ignore_errors=True)
+    probe2 = Probe()
+    evaluate(res2, probe2)
+    if probe2.v:
+        evaluate(res2, rep)
+    else:
+        rep.count("binary:not-reproduced-on-rerun")
+
+
 def with_files(files):
     """Temp working directory holding `files` {relpath: text}."""
     d = tempfile.mkdtemp(prefix="c15-", dir=os.path.join(BUILD))
@@ -958,36 +999,43 @@ def binary_oracles(ctx, rep):
     for j in jobs:
         res = [results[i] for i in j["idx"]]
         nth = len(j["runs"])
-        outs = [r[1] for r in res[:nth]]
-        rcs = [r[0] for r in res[:nth]]
+        all_runs = [flat[i] for i in j["idx"]]
         rep.count("binary:config:" + j["kind"])
         rep.count("binary:lang:" + j["lang"])
-        if any(rc != 0 for rc in rcs):
-            # crashes are C03's subject; here they only make the case unusable — unless
-            # the crash depends on the theme, which is a C15 failure as well.
-            rep.count("binary:nonzero-exit")
-            if len(set(rcs)) > 1:
-                k = next(i for i, rc in enumerate(rcs) if rc != rcs[0])
-                rep.violation("theme:exit-status-differs",
-                              "exit status %s under %s but %s under %s: %s" % (rcs[0], j["labels"][0], rcs[k], j["labels"][k], res[k][2][-200:]),
-                              replay_obj("B1", [j["runs"][0], j["runs"][k]], labels=[j["labels"][0], j["labels"][k]]))
-            continue
-        distinct_fg = len({repr(with_fg(decode(o))) for o in outs}) > 1
-        rep.case(key=(sha(j["runs"][0][1]), tuple(j["runs"][0][0])), nontrivial=distinct_fg,
-                 sample=dict(op="binary-themes", themes=j["labels"], config=j["kind"], args=j["runs"][0][0][2:],
-                             diff=j["runs"][0][1].decode()[:300]))
-        rep.count("binary:theme-runs", nth)
-        check_theme_group(rep, outs, j["labels"], j["meta"], j["kind"] == "nosyntax-all", j["runs"])
-        if "rename" in j:
-            r = res[nth]
-            rep.count("binary:rename")
-            if r[0] == 0:
-                compare_rows(rep, "language:rename-same-kind-changes-colouring",
+
+        def evaluate(res, sink, j=j, nth=nth):
+            outs = [r[1] for r in res[:nth]]
+            rcs = [r[0] for r in res[:nth]]
+            if any(rc != 0 for rc in rcs):
+                # crashes are C03's subject; here they only make the case unusable — unless
+                # the crash depends on the theme, which is a C15 failure as well.
+                if len(set(rcs)) > 1:
+                    k = next(i for i, rc in enumerate(rcs) if rc != rcs[0])
+                    sink.violation("theme:exit-status-differs",
+                                   "exit status %s under %s but %s under %s: %s" % (rcs[0], j["labels"][0], rcs[k], j["labels"][k], res[k][2][-200:]),
+                                   replay_obj("B1", [j["runs"][0], j["runs"][k]], labels=[j["labels"][0], j["labels"][k]]))
+                return
+            check_theme_group(sink, outs, j["labels"], j["meta"], j["kind"] == "nosyntax-all", j["runs"])
+            if "rename" in j and res[nth][0] == 0:
+                compare_rows(sink, "language:rename-same-kind-changes-colouring",
                              "renaming to another name of the same language changed hunk rows (%s)" % j["rename"]["names"],
-                             outs[0], r[1], j["rename"]["names"], [j["runs"][0], j["rename"]["run"]])
-            c = res[nth + 1]
-            if c[0] == 0 and rows_without(outs[0], j["control"]["names"]) != rows_without(c[1], j["control"]["names"]):
-                rep.count("binary:rename-control-differs")
+                             outs[0], res[nth][1], j["rename"]["names"], [j["runs"][0], j["rename"]["run"]])
+
+        if any(r[0] != 0 for r in res[:nth]):
+            rep.count("binary:nonzero-exit")
+        else:
+            outs = [r[1] for r in res[:nth]]
+            distinct_fg = len({repr(with_fg(decode(o))) for o in outs}) > 1
+            rep.case(key=(sha(j["runs"][0][1]), tuple(j["runs"][0][0])), nontrivial=distinct_fg,
+                     sample=dict(op="binary-themes", themes=j["labels"], config=j["kind"], args=j["runs"][0][0][2:],
+                                 diff=j["runs"][0][1].decode()[:300]))
+            rep.count("binary:theme-runs", nth)
+            if "rename" in j:
+                rep.count("binary:rename")
+                c = res[nth + 1]
+                if c[0] == 0 and rows_without(outs[0], j["control"]["names"]) != rows_without(c[1], j["control"]["names"]):
+                    rep.count("binary:rename-control-differs")
+        confirm(ctx, rep, all_runs, res, evaluate)
 
     # ---- B5 / B6: which path, and nothing but the path
     n5 = ctx.n(12, 150)
@@ -1020,18 +1068,26 @@ def binary_oracles(ctx, rep):
             flat.append((j["args"], j[k], None))
     results = parallel_map(lambda r: run_case(ctx, r[0], r[1], r[2]), flat)
     for n, j in enumerate(b5):
-        ref, renamed, added, addref, deleted, delref = results[6 * n:6 * n + 6]
-        if any(r[0] != 0 for r in (ref, renamed, added, addref, deleted, delref)):
+        res = results[6 * n:6 * n + 6]
+        runs = flat[6 * n:6 * n + 6]
+
+        def evaluate(res, sink, j=j):
+            ref, renamed, added, addref, deleted, delref = res
+            if any(r[0] != 0 for r in res):
+                return
+            compare_rows(sink, "language:not-from-new-path", "a file renamed from %s to %s is not coloured as %s" % (j["names"][1], j["names"][0], j["names"][0]),
+                         ref[1], renamed[1], j["names"] + ["renamed:"], [(j["args"], j["ref"], None), (j["args"], j["renamed"], None)])
+            compare_rows(sink, "language:added-file-not-by-name", "an added file %s is not coloured by its name" % j["names"][0],
+                         addref[1], added[1], j["names"] + ["added:"], [(j["args"], j["addref"], None), (j["args"], j["added"], None)])
+            compare_rows(sink, "language:deleted-file-default-language", "a deleted file %s is coloured with the default language instead of its own" % j["names"][0],
+                         delref[1], deleted[1], j["names"] + ["removed:"], [(j["args"], j["delref"], None), (j["args"], j["deleted"], None)])
+
+        if any(r[0] != 0 for r in res):
             rep.count("binary:nonzero-exit")
             continue
         rep.case(key=("b5", sha(j["ref"]), tuple(j["args"])), nontrivial=True)
         rep.count("binary:new-path")
-        compare_rows(rep, "language:not-from-new-path", "a file renamed from %s to %s is not coloured as %s" % (j["names"][1], j["names"][0], j["names"][0]),
-                     ref[1], renamed[1], j["names"] + ["renamed:"], [(j["args"], j["ref"], None), (j["args"], j["renamed"], None)])
-        compare_rows(rep, "language:added-file-not-by-name", "an added file %s is not coloured by its name" % j["names"][0],
-                     addref[1], added[1], j["names"] + ["added:"], [(j["args"], j["addref"], None), (j["args"], j["added"], None)])
-        compare_rows(rep, "language:deleted-file-default-language", "a deleted file %s is coloured with the default language instead of its own" % j["names"][0],
-                     delref[1], deleted[1], j["names"] + ["removed:"], [(j["args"], j["delref"], None), (j["args"], j["deleted"], None)])
+        confirm(ctx, rep, runs, res, evaluate)
 
     # B6: file contents / first line never matter
     b6 = []
@@ -1061,28 +1117,36 @@ def binary_oracles(ctx, rep):
         for d in tmpdirs:
             shutil.rmtree(d, ignore_errors=True)
     for n, j in enumerate(b6):
-        empty, withfile, txt = results[3 * n:3 * n + 3]
-        if any(r[0] != 0 for r in (empty, withfile, txt)):
+        res = results[3 * n:3 * n + 3]
+        runs = flat[3 * n:3 * n + 3]
+
+        def evaluate(res, sink, j=j):
+            empty, withfile, txt = res
+            if any(r[0] != 0 for r in res):
+                return
+            if empty[1] != withfile[1]:
+                sink.violation("language:depends-on-file-in-cwd",
+                               "output changes when a file named %s exists in the working directory" % j["name"],
+                               replay_obj("B6", [(j["args"], j["d_unknown"], {}), (j["args"], j["d_unknown"], j["files"])], names=[]))
+            # Plain Text has a single scope: every cell painted by a `syntax` style carries the
+            # theme's one base foreground (or none: prefix markers, text beyond the highlighting limit).
+            for label, r, data in (("kjyd.txt", txt, j["d_txt"]), (j["name"], empty, j["d_unknown"])):
+                fgs = {it[2] for row in decode(r[1]) for it in row if it[0] == "c" and it[3] in j["bgs"]}
+                if len(fgs - {None}) > 1:
+                    sink.violation("language:plain-text-file-highlighted",
+                                   "hunk of %s (no language of its own) shows %d different syntax foregrounds: a language was inferred from its content" % (label, len(fgs - {None})),
+                                   replay_obj("B6p", [(j["args"], data, {})], names=[], bgs=[list(b) for b in j["bgs"]]))
+                    break
+            compare_rows(sink, "language:depends-on-first-line",
+                         "a file with an unknown name (%s) whose hunk starts with a shebang/modeline is not coloured as plain text" % j["name"],
+                         txt[1], empty[1], [j["name"], "kjyd.txt"], [(j["args"], j["d_txt"], {}), (j["args"], j["d_unknown"], {})])
+
+        if any(r[0] != 0 for r in res):
             rep.count("binary:nonzero-exit")
             continue
         rep.case(key=("b6", sha(j["d_unknown"]), tuple(j["args"])), nontrivial=True)
         rep.count("binary:content-independence")
-        if empty[1] != withfile[1]:
-            rep.violation("language:depends-on-file-in-cwd",
-                          "output changes when a file named %s exists in the working directory" % j["name"],
-                          replay_obj("B6", [(j["args"], j["d_unknown"], {}), (j["args"], j["d_unknown"], j["files"])], names=[]))
-        # Plain Text has a single scope: every cell painted by a `syntax` style carries the
-        # theme's one base foreground (or none: prefix markers, text beyond the highlighting limit).
-        for label, res, data in (("kjyd.txt", txt, j["d_txt"]), (j["name"], empty, j["d_unknown"])):
-            fgs = {it[2] for row in decode(res[1]) for it in row if it[0] == "c" and it[3] in j["bgs"]}
-            if len(fgs - {None}) > 1:
-                rep.violation("language:plain-text-file-highlighted",
-                              "hunk of %s (no language of its own) shows %d different syntax foregrounds: a language was inferred from its content" % (label, len(fgs - {None})),
-                              replay_obj("B6p", [(j["args"], data, {})], names=[], bgs=[list(b) for b in j["bgs"]]))
-                break
-        compare_rows(rep, "language:depends-on-first-line",
-                     "a file with an unknown name (%s) whose hunk starts with a shebang/modeline is not coloured as plain text" % j["name"],
-                     txt[1], empty[1], [j["name"], "kjyd.txt"], [(j["args"], j["d_txt"], {}), (j["args"], j["d_unknown"], {})])
+        confirm(ctx, rep, runs, res, evaluate, cwd_files=[{}, j["files"], {}])
 
 
 def run(ctx, rep):
